@@ -75,7 +75,17 @@ func init() {
 	})
 }
 
+// runC06: most cases run alone; some run as 2-3 concurrent sessions of the
+// same case shape in one process (package-level state in the code under test).
 func runC06(cs *vrt.Case) {
+	if cs.Idx%4 == 3 {
+		cs.Twins(2+(cs.Idx/7)%2, func(sub *vrt.Case, _ *vrt.Rng) { runC06One(sub) })
+		return
+	}
+	runC06One(cs)
+}
+
+func runC06One(cs *vrt.Case) {
 	r := cs.Rng
 	switch k := cs.Idx % 8; {
 	case k < 4:
